@@ -577,6 +577,46 @@ def gen_move_long(rng, idx, gap_ms=95000):
                            kinds=["gap-beyond-retention"])
 
 
+def gen_move_two_convs(rng, idx):
+    """ONE ClientID, TWO KCP conversations one after the other on its carrier - what client/lib never does (newSession makes
+    one conversation per ClientID), i.e. the premise of C05_one_accepted_connection broken on purpose. The first segment of
+    the second conversation (sn = 0) makes kcp-go's listener close the connection it accepted for the ClientID and accept a
+    second one: two accepted connections, the first with the whole first stream, as the model's listener view says
+    (C05_two_convs_two_connections). Expected by the model - not a violation."""
+    sid_hex = scen_id(idx, 0xdd)
+    cid = "%016x" % rng.getrandbits(64)
+    conv1 = rng.randrange(1, 1 << 31)
+    conv2 = conv1 ^ (1 << rng.randrange(31))
+    if conv2 == 0:
+        conv2 = conv1 + 1
+    ops, mops = ["i" + sid_hex, "n", "r0:x" + TOKEN + cid], ["n", "r0:x%s:0" % (TOKEN + cid)]
+    now, sess, total = 1, [], 0
+    for j, conv in enumerate((conv1, conv2)):
+        app = bytes.fromhex(sid_hex) + bytes([j]) + bytes(rng.randrange(256) for _ in range(rng.randrange(60, 200)))
+        stream = smux_frame(0, 3) + b"".join(smux_frame(2, 3, app[i:i + 50]) for i in range(0, len(app), 50))
+        for k, i in enumerate(range(0, len(stream), 40)):
+            seg = kcp_seg(conv, k, stream[i:i + 40])
+            h = prefix(len(seg)) + seg.hex()
+            ops.append("r0:x" + h); mops.append("r0:x%s:%d" % (h, now))
+            now += 1
+        total += len(app) - 5
+        # the whole stream of this conversation has been read before the next conversation starts
+        ops[-1] += "@a%d@t%d" % (j + 1, total)
+        sess.append(dict(j=j, cid=cid, conv=conv, app=app.hex(), down="", carriers=[0], last=0))
+    return ops, mops, dict(sid=sid_hex, ncar=1, tokenless=[], model=True, sessions=sess, two_convs=True,
+                           kinds=["two-conversations-one-clientid"])
+
+
+def check_two_convs(meta, md):
+    """what the model's listener view must say of a two-conversation case: two connections under the one ClientID, in
+    order, the first closed, the second live"""
+    acc = [] if md.get("acc", "-") == "-" else [x.split(":") for x in md["acc"].split(",")]
+    s0, s1 = meta["sessions"]
+    want = [("x" + s0["cid"], str(s0["conv"]), "0"), ("x" + s1["cid"], str(s1["conv"]), "1")]
+    got = [(a[0], a[1], a[3]) for a in acc if len(a) == 4]
+    return None if got == want else "model listener view %s, expected %s" % (got, want)
+
+
 def check_move(meta, d, md):
     """the property on the black-box driver's answer (d) and the comparison with the model's listener view (md)"""
     bad = []
@@ -621,11 +661,10 @@ def check_move(meta, d, md):
                         "the server did not close it" % (t["i"], t["kind"])))
     # downstream: what the carriers of a session received decodes to KCP segments of that session's conversation whose
     # data, in sequence-number order, is a prefix of what the application behind Accept wrote to that session
-    by_conv = {}
-    for s in sess:
-        by_conv.setdefault(s["conv"], []).append(s)
     for s in sess:
         segs = {}
+        # conversations of the same ClientID (one, except in the two-conversation case) share its carriers
+        own = set(x["conv"] for x in sess if x["cid"] == s["cid"])
         for i in s["carriers"]:
             st, wire = d.get("k%d" % i, "open:x").split(":")
             ks = kcp_push_segments(wire[1:])
@@ -633,11 +672,11 @@ def check_move(meta, d, md):
                 bad.append(("downstream-not-framed", "carrier %d downstream is not a sequence of whole packets of whole KCP segments" % i))
                 continue
             for conv, cmd, sn, data in ks:
-                if conv != s["conv"]:
+                if conv not in own:
                     bad.append(("downstream-wrong-session", "carrier %d (ClientID %s, conversation %d) was written a KCP segment of conversation %d" % (
                         i, s["cid"], s["conv"], conv)))
                     break
-                if cmd == 81:
+                if cmd == 81 and conv == s["conv"]:
                     segs.setdefault(sn, data)
         stream, sn = b"", 0
         while sn in segs:
@@ -819,6 +858,8 @@ def run(ctx):
     # ---- the black-box view: always available (nothing unexported is used)
     bb = vlib.go_build("./zz_verif/c05bb")
     moves = [gen_move(ctx.rng, i) for i in range(44 if quick else 400)]
+    # the same-conversation premise of C05_one_accepted_connection, broken on purpose (expected by the model)
+    moves += [gen_move_two_convs(ctx.rng, i) for i in range(2 if quick else 12)]
     if not quick:
         # the real one-minute retention, really exceeded (95 s without a carrier): first in the list so that it overlaps the rest
         moves = [gen_move_long(ctx.rng, i) for i in range(2)] + moves
@@ -956,6 +997,10 @@ def run(ctx):
             continue
         if macc != len(meta["sessions"]):
             ctx.not_shown("model: listener view has %d connections for %d sessions: case=%s model=%s" % (macc, len(meta["sessions"]), ml[:400], mo[:300]))
+        if meta.get("two_convs"):
+            t = check_two_convs(meta, md)
+            if t:
+                ctx.not_shown("model: two conversations under one ClientID: %s: case=%s model=%s" % (t, ml[:400], mo[:300]))
         if not bad and int(d.get("accepted", -1)) != macc:
             ctx.not_shown("correspondence carrierlayer (move): accepted connections differ: case=%s impl=%s model=%s" % (ml[:400], o[:200], mo[:300]))
         # carriers without the token: closed by the server exactly when the model says so
